@@ -22,7 +22,7 @@ FAMILIES = {
              'forwarding registrations, sync/async/raising handlers, nested dispatch, in-handler awaits, re-dispatch, 1-2 external tasks); '
              'non-trivial: at least two handler instances are scheduled and some handler suspends (await or sleep); distinct: hash of the label sequence'),
     'C02': dict(
-        gens=[('core', dict(nb=(2, 3), p_parallel=0.1), 0.7), ('core', dict(nb=(1, 2), p_parallel=0.0, p_timeout=0.6), 0.15),
+        gens=[('core', dict(nb=(2, 3), p_parallel=0.1), 0.64), ('parraise', dict(), 0.06), ('core', dict(nb=(1, 2), p_parallel=0.0, p_timeout=0.6), 0.15),
               ('chain', dict(p_timeout=0.6, p_unrelated=0.7), 0.15)],
         facets=CORE + ['lock', 'await', 'dispatch', 'timeout'],
         rule='2-3 buses, cross-bus dispatch from handlers with yields between dispatch and await, external dispatchers at offsets; '
@@ -68,9 +68,9 @@ FAMILIES = {
         rule='forwarding chains/diamonds with slow downstream handlers, external awaits; every state after first completion is an observation point; '
              'non-trivial: an event completes and at least 5 labels follow'),
     'C09': dict(
-        gens=[('core', dict(p_parallel=0.4, p_readbus=0.12, p_parent=0.15, p_forward=0.2), 0.57), ('core', dict(p_parallel=0.3, p_forward=0.15, p_existing=0.05, p_raise=0.0), 0.2), ('backlog', dict(), 0.08),
+        gens=[('core', dict(p_parallel=0.4, p_readbus=0.12, p_parent=0.15, p_forward=0.2), 0.51), ('core', dict(p_parallel=0.3, p_forward=0.15, p_existing=0.05, p_raise=0.0), 0.2), ('backlog', dict(), 0.08),
               # nested awaits whose inner handlers fail or time out: attribution after an error inside the await window
-              ('core', dict(p_parallel=0.15, p_raise=0.25, p_timeout=0.3, proglen=(2, 6), p_readbus=0.1), 0.09), ('errnest', dict(), 0.06)],
+              ('core', dict(p_parallel=0.15, p_raise=0.25, p_timeout=0.3, proglen=(2, 6), p_readbus=0.1), 0.09), ('errnest', dict(), 0.06), ('outbox', dict(), 0.06)],
         facets=CORE + ['lineage', 'path', 'eventbus', 'dispatch', 'capacity'],
         rule='parallel handlers dispatching at interleaved times, nested awaits, forwarding of roots and children, explicit parents, event_bus reads; '
              'non-trivial: a handler instance dispatches'),
@@ -92,7 +92,7 @@ FAMILIES = {
         facets=['history', 'capacity', 'harness', 'other', 'queue'],
         rule='max_history_size 1-5, bursts larger than N, nested dispatch, slow handlers; non-trivial: an eviction happens'),
     'C14': dict(
-        gens=[('core', dict(), 0.47), ('backlog', dict(), 0.47), ('stop', dict(p_cancel=0.9), 0.06)],
+        gens=[('core', dict(), 0.43), ('backlog', dict(), 0.45), ('stop', dict(p_cancel=0.9), 0.06), ('retrychain', dict(), 0.06)],
         facets=['capacity', 'dispatch', 'queue', 'history', 'lineage', 'unfinished', 'harness', 'other', 'rest', 'activation', 'handlers', 'runloop'],
         rule='backlog states around the queue limit (50) and the in-flight limit (100), dispatch from main code and from handlers; '
              'non-trivial: a dispatch is rejected'),
@@ -109,7 +109,7 @@ FAMILIES = {
         rule='stop() / run-loop-task cancellation at every control state of the run loop (polling, event in hand, processing, handler mid-flight, '
              'blocked on the lock), backlog sizes 0-6, other buses with awaiting handlers; non-trivial: the stop or cancel arrives while the bus has work'),
     'C17': dict(
-        gens=[('core', dict(p_wal=0.7, p_payload=0.6, p_walfault=0.15, p_forward=0.25, p_parallel=0.3), 0.74), ('parraise', dict(wal=True), 0.06),
+        gens=[('core', dict(p_wal=0.7, p_payload=0.6, p_walfault=0.15, p_forward=0.25, p_parallel=0.3), 0.68), ('parraise', dict(wal=True), 0.06), ('stop', dict(p_cancel=0.2, p_wal=0.8), 0.06),
               ('core', dict(p_wal=0.8, p_payload=0.4, p_rtype=0.7, p_forward=0.2), 0.2)],
         facets=['wal', 'activation', 'handlers', 'lifecycle', 'harness', 'other', 'results', 'signal'],
         rule='WAL buses with nested, awaited and forwarded events, parallel handlers, payloads (nested containers, unicode, datetimes, big ints), '
@@ -169,7 +169,15 @@ def gen_backlog(rng, p_waitidle=0.0, **_):
     return sc
 
 
-GENS = {'core': gen.gen_core, 'backlog': gen_backlog, 'chain': gen.gen_chain, 'stop': gen.gen_stop, 'idle': gen.gen_idle, 'deep': gen.gen_deep, 'sibling': gen.gen_sibling, 'parraise': gen.gen_parraise, 'deepfwd': gen.gen_deepfwd, 'parshare': gen.gen_parshare, 'partimeout': gen.gen_partimeout, 'cycle': gen.gen_cycle, 'errnest': gen.gen_errnest, 'fwdfail': gen.gen_fwdfail, 'evictgap': gen.gen_evictgap, 'expects': gen.gen_expects}
+GENS = {'core': gen.gen_core, 'backlog': gen_backlog, 'chain': gen.gen_chain, 'stop': gen.gen_stop, 'idle': gen.gen_idle, 'deep': gen.gen_deep, 'sibling': gen.gen_sibling, 'parraise': gen.gen_parraise, 'deepfwd': gen.gen_deepfwd, 'parshare': gen.gen_parshare, 'partimeout': gen.gen_partimeout, 'cycle': gen.gen_cycle, 'errnest': gen.gen_errnest, 'fwdfail': gen.gen_fwdfail, 'evictgap': gen.gen_evictgap, 'expects': gen.gen_expects, 'outbox': gen.gen_outbox, 'retrychain': gen.gen_retrychain}
+
+
+def bus_classes(rng, sc):
+    """applications subclass EventBus: in a quarter of the scenarios with several buses some buses are instances of (one of two)
+    subclasses of the class the others are instances of"""
+    if len(sc['buses']) > 1 and rng.random() < 0.25:
+        for b in sc['buses']:
+            b['cls'] = rng.choice([0, 0, 1, 2])
 
 
 MIX_SHARE = 0.15
@@ -203,6 +211,7 @@ def scenarios(prop, tier, seed):
             order = list(range(len(sc['buses'])))
             rng.shuffle(order)
             sc['bus_order'] = order
+        bus_classes(rng, sc)
         yield f'mix:{seed}:{i}', sc, None, 'mix'
     total -= mix
     for gi, (gname, opts, share) in enumerate(fam['gens']):
@@ -213,6 +222,7 @@ def scenarios(prop, tier, seed):
                 order = list(range(len(sc['buses'])))
                 rng.shuffle(order)
                 sc['bus_order'] = order     # iteration order of EventBus.all_instances (unspecified in the library)
+            bus_classes(rng, sc)
             yield f'{gname}{gi}:{seed}:{i}', sc, None, f'{gname}{gi}'
 
 
